@@ -406,7 +406,8 @@ REORDERED_PAIRS = [("SSTORE SSTORE", _SHUFFLE + " SSTORE SSTORE"), ("MSTORE MSTO
                    ("MSTORE8 MSTORE8", _SHUFFLE + " MSTORE8 MSTORE8"),
                    ("SLOAD SWAP2 SWAP1 SSTORE", "SWAP2 SWAP1 SWAP2 SWAP1 SSTORE SLOAD".replace("SWAP2 SWAP1 SWAP2 SWAP1", "SWAP1 SWAP2")),
                    ("MLOAD SWAP2 SWAP1 MSTORE", "SWAP1 SWAP2 MSTORE MLOAD"),
-                   ("DUP2 DUP2 SSTORE SSTORE SSTORE", "DUP2 DUP2 SSTORE SWAP2 SWAP1 SWAP3 SWAP1 SSTORE SSTORE")]
+                   ("DUP2 DUP2 SSTORE SSTORE SSTORE", "DUP2 DUP2 SSTORE SWAP2 SWAP1 SWAP3 SWAP1 SSTORE SSTORE"),
+                   ("PUSH 0 PUSH 0 MSTORE MSIZE", "MSIZE PUSH 0 PUSH 0 MSTORE"), ("MSIZE DUP2 MLOAD", "DUP1 MLOAD MSIZE SWAP1")]
 
 
 _old_cases = cases
